@@ -13,7 +13,7 @@ import (
 // (fault-free: uninterrupted run, healthy target). DESIGN.md §3 C01.
 
 func init() {
-	Register(&PropertyDef{ID: "C01", Strata: []string{"mixed", "txnmode", "nontxn", "bigargs", "selectheavy", "txnheavy"}, Run: runC01, StepCap: 30000})
+	Register(&PropertyDef{ID: "C01", Strata: []string{"mixed", "txnmode", "nontxn", "bigargs", "selectheavy", "txnheavy", "configured-out"}, Run: runC01, StepCap: 30000})
 }
 
 func c01Opts(r *Run, stratum string) (PipeCfg, StreamOpts) {
@@ -39,6 +39,11 @@ func c01Opts(r *Run, stratum string) (PipeCfg, StreamOpts) {
 		o.SelectHeavy = true
 	case "txnheavy":
 		o.TxnHeavy = true
+	case "configured-out":
+		// "the documented removals (... administrative and configured-out commands)": command, database and key rules
+		// as an operator configures them; what remains must still arrive complete and in order
+		cfg.Filters = GenFilterSpec(g)
+		o.Filters, o.NumDBs = cfg.Filters, 4
 	}
 	return cfg, o
 }
